@@ -11,7 +11,8 @@ Import ListNotations.
 Inductive vref :=
 | RVar (x : string)                (* a plain name *)
 | RIdx (l : string)                (* l[idx] : slot idx of the list l *)
-| RKey (d : string) (op : string). (* d[op[idx].range] : entry of the dict d for the range of operator idx *)
+| RKey (d : string) (op : string)  (* d[op[idx].range] : entry of the dict d for the range of operator idx *)
+| RAt (l : string) (k : nat).      (* l[k] with a literal index *)
 
 Inductive lvx :=
 | LName (r : vref)
@@ -43,4 +44,6 @@ Inductive pstmt :=
 Inductive litem :=
 | IFor (body : list lstmt)           (* for idx in range(n): body *)
 | IForOrd (body : list lstmt)        (* rng = np.random.permutation(range(n)); for idx in rng: body *)
+| IForFrom (start : nat) (body : list lstmt)   (* for a, b in zip(A[start:], B[start:]): body *)
+| IIfLast (body : list lstmt)        (* if k == niter - 1: body; return *)
 | IStmt (s : lstmt).
